@@ -3,6 +3,6 @@
 tier=${1:-quick}
 cd /verif
 for p in $(python3 -c "import json;print(' '.join(c['property_id'] for c in json.load(open('MANIFEST.json'))['checks']))"); do
-  s=$(date +%s); python3 check.py $p --tier $tier > /tmp/runall_$p.log 2>&1; rc=$?; e=$(date +%s)
-  echo "$p rc=$rc $((e-s))s $(tail -1 /tmp/runall_$p.log)"
+  s=$(date +%s); python3 check.py $p --tier $tier > /tmp/runall_${tier}_$p.log 2>&1; rc=$?; e=$(date +%s)
+  echo "$p rc=$rc $((e-s))s $(tail -1 /tmp/runall_${tier}_$p.log)"
 done
